@@ -1052,8 +1052,8 @@ _EBSEL = {}
 def eb_select(env, cfg, prog, cid):
     """eb_param_set costs ~0.3 s in the sanitized build: issue it only when this runner process is on another curve"""
     r = env.runner(cfg)
-    key = (id(r), r.starts, cid)
-    if _EBSEL.get(cfg) != key or r.proc is None or r.proc.poll() is not None or r.ncases + 1 >= r.recycle:
+    key = r.epoch() + (cid,)
+    if _EBSEL.get(cfg) != key:
         prog.call("h2c_eb_param_set", cid)
         return 1
     return 0
@@ -1129,7 +1129,7 @@ def run_eb(env, cfg, case):
         except Exception:
             _EBSEL.pop(cfg, None)
             raise
-        _EBSEL[cfg] = (id(env.runner(cfg)), env.runner(cfg).starts, e.cid)
+        _EBSEL[cfg] = env.runner(cfg).epoch() + (e.cid,)
         for cl in res.calls:
             chk_call(cl, what)
             if sm in cl.changed or so in cl.changed:
